@@ -1,6 +1,8 @@
 #include "execp.hpp"
+#include "seams_stream.hpp"
 
 #include <cstring>
+#include <memory>
 
 namespace sim
 {
@@ -21,6 +23,7 @@ namespace
         std::vector<ExecOp> ops;
         std::vector<const FleetEntry*> entries;
         std::vector<Outcome> outs;
+        std::unique_ptr<SharedSimStream> shared;     // one long-lived std::ostream per task (plan.share_streams)
     };
     struct RunWork { std::vector<TaskWork> tasks; };
 
@@ -69,6 +72,11 @@ RunResult exec_plan(const Plan& p, const ExecFlags& f)
             int64_t n = int64_t(eo.input.size());
             rec.step_budget = 4096 + 64 * n;
             rec.rd_budget = 65536 + 64 * n;      // reads+advances, and lexer steps: a correct driver is linear in n
+            if (p.share_streams && eo.stream == STR_SIM && po.stream_fail_after < 0)
+            {
+                if (!tw.shared) tw.shared.reset(new SharedSimStream());
+                eo.shared_os = &tw.shared->os;
+            }
             tw.ops.push_back(eo);
             tw.entries.push_back(find_fleet(po.parser));
             tw.outs.emplace_back();
